@@ -37,3 +37,42 @@ Definition chk_unquote_any (c : list N * list N) : bool :=
 (* bytes b: (b, unquote_to_bytes(b)) *)
 Definition chk_unquote_bytes (c : list N * list N) : bool :=
   let '(b, ub) := c in str_eqb (unquote_bytes b) ub.
+
+(* ---------- packed transport ----------
+   Parsing a shard costs time per syntax node, so the harness packs every
+   string into primitive 63-bit integers: a chunk holds up to `per` elements of
+   `bits` bits each, least significant first, with a marker bit 1 above the last
+   element (bytes and ASCII: 7 x 8 bits, code points: 2 x 21 bits).  The
+   unpacking below is part of the harness, not of the model. *)
+From Coq Require Export Uint63.
+From Coq Require Import ZArith.
+
+Definition n_of_int (i : int) : N := Z.to_N (Uint63.to_Z i).
+
+Fixpoint unpack_chunk (fuel : nat) (base : N) (n : N) : list N :=
+  match fuel with
+  | O => []
+  | S f => if n <=? 1 then [] else (n mod base) :: unpack_chunk f base (n / base)
+  end.
+
+Definition unpack (base : N) (l : list int) : list N :=
+  flat_map (fun i => unpack_chunk 8 base (n_of_int i)) l.
+Definition ub (l : list int) : list N := unpack 256 l.        (* bytes / ASCII *)
+Definition uc (l : list int) : list N := unpack 2097152 l.    (* code points *)
+
+Definition pk_bytes (c : list int * (list int * list int)) : bool :=
+  let '(b, (dec, q)) := c in chk_bytes (ub b, (uc dec, ub q)).
+Definition pk_decode (c : list int * list int) : bool :=
+  let '(b, dec) := c in chk_decode (ub b, uc dec).
+Definition pk_quote (c : (list int * list int) * list int) : bool :=
+  let '((safe, b), q) := c in chk_quote ((ub safe, ub b), ub q).
+Definition pk_encode (c : list int * option (list int)) : bool :=
+  let '(s, e) := c in chk_encode (uc s, option_map ub e).
+Definition pk_quote_str (c : (list int * list int) * option (list int)) : bool :=
+  let '((safe, s), q) := c in chk_quote_str ((uc safe, uc s), option_map ub q).
+Definition pk_unquote_ascii (c : list int * (list int * list int)) : bool :=
+  let '(s, (b, us)) := c in chk_unquote_ascii (ub s, (ub b, uc us)).
+Definition pk_unquote_any (c : list int * list int) : bool :=
+  let '(s, us) := c in chk_unquote_any (uc s, uc us).
+Definition pk_unquote_bytes (c : list int * list int) : bool :=
+  let '(b, u) := c in chk_unquote_bytes (ub b, ub u).
